@@ -601,14 +601,20 @@ package main
 // ---- lazy typed getters: decode the first header of that name in place, touch nothing else ----
 
 //@ func ParseFromSpec
-//@   props C16 C08
+//@   props C16 C08 C14
 //@   ensures err == nil ==> result != nil && fresh(result)
 //@   ensures err != nil ==> result == nil
+//@   ensures bare-absolute-uri: err == nil && !contains(s, "<") && !hasPrefix(s, "sip:") && !hasPrefix(s, "sips:") ==>
+//@        result.nameAddr == nil && result.addrSpec != nil && result.addrSpec.sipURI == nil && result.addrSpec.absoluteURI != nil
+//@        && result.addrSpec.absoluteURI.absURI == (contains(s, ";") ? s[0:indexOf(s, ";")] : s)
 
 //@ func ParseTo
-//@   props C16 C08
+//@   props C16 C08 C14
 //@   ensures err == nil ==> result != nil && fresh(result)
 //@   ensures err != nil ==> result == nil
+//@   ensures bare-absolute-uri: err == nil && !contains(s, "<") && !hasPrefix(s, "sip:") && !hasPrefix(s, "sips:") ==>
+//@        result.nameAddr == nil && result.addrSpec != nil && result.addrSpec.sipURI == nil && result.addrSpec.absoluteURI != nil
+//@        && result.addrSpec.absoluteURI.absURI == (contains(s, ";") ? s[0:indexOf(s, ";")] : s)
 
 //@ func parseRouteParam
 //@   props C13 C08
@@ -1506,6 +1512,13 @@ package main
 //@   ensures verbatim: isType(writer, "*bytes.Buffer") ==> W[refOf(writer)] == old(W[refOf(writer)]) + kvText(kv)
 //@   ensures only-this-writer: forall w int :: w != refOf(writer) ==> W[w] == old(W[w])
 
+//@ func (KeyValue).String
+//@   props C14
+//@   uses kvtext
+//@   modifies W
+//@   ensures text: result == kvText(kv)
+//@   ensures existing-writers-kept: forall w int :: old(allocated(w)) ==> W[w] == old(W[w])
+
 //@ func ParseGenericParam
 //@   props C14
 //@   uses kvtext
@@ -1515,7 +1528,7 @@ package main
 
 //@ func ParseAbsoluteURI
 //@   props C14
-//@   ensures keeps-text: err == nil && result.absURI == s
+//@   ensures keeps-text: err == nil && result != nil && fresh(result) && result.absURI == s
 
 //@ func (*AbsoluteURI).Writer
 //@   props C14
@@ -1553,7 +1566,7 @@ package main
 //@   props C14
 //@   uses kvtext addrtext
 //@   modifies W
-//@   ensures text: isType(writer, "*bytes.Buffer") ==> W[refOf(writer)] == old(W[refOf(writer)]) + nameAddrText(r.nameAddr) + kvSeqText(";", r.rrParam, len(r.rrParam))
+//@   ensures text: isType(writer, "*bytes.Buffer") && err == nil ==> W[refOf(writer)] == old(W[refOf(writer)]) + nameAddrText(r.nameAddr) + kvSeqText(";", r.rrParam, len(r.rrParam))
 //@   ensures only-this-writer: forall w int :: w != refOf(writer) ==> W[w] == old(W[w])
 //@   loop 0:
 //@     invariant forall w int :: w != refOf(writer) ==> W[w] == old(W[w])
@@ -1568,3 +1581,10 @@ package main
 //@   loop 0:
 //@     invariant 0 <= $i && $i <= len(vp.Params)
 //@     invariant W[buf] == viaHeadText(vp) + kvSeqText(";", vp.Params, $i)
+
+//@ func ParseAddrSpec
+//@   props C14
+//@   ensures absolute: !hasPrefix(addrSpec, "sip:") && !hasPrefix(addrSpec, "sips:") ==> err == nil && result != nil && fresh(result) && result.sipURI == nil && result.absoluteURI != nil && result.absoluteURI.absURI == addrSpec
+//@   ensures sip: (hasPrefix(addrSpec, "sip:") || hasPrefix(addrSpec, "sips:")) && err == nil ==> result != nil && fresh(result) && result.sipURI != nil && result.absoluteURI == nil
+//@   ensures failed: err != nil ==> result == nil
+
